@@ -19,6 +19,7 @@ import (
 	"sync/atomic"
 
 	"github.com/iotaledger/hive.go/app/daemon"
+	"verif/harness/internal/gdump"
 	"verif/harness/internal/vf"
 )
 
@@ -61,7 +62,7 @@ func reregOne(c *vf.Ctx, seed int64, batch, iter int, race bool) {
 	}
 	runQueries(d, queryPlan(rng, false, true), nil) // before Start
 	useRun := rng.Intn(4) == 0 || lastWorker
-	var runRet atomic.Uint64
+	var runRet, runGID atomic.Uint64
 	var runPanic atomic.Pointer[string]
 	var wg, spinWG sync.WaitGroup
 	if useRun {
@@ -74,6 +75,7 @@ func reregOne(c *vf.Ctx, seed int64, batch, iter int, race bool) {
 					runPanic.Store(&m)
 				}
 			}()
+			runGID.Store(gdump.GoID())
 			d.Run()
 			runRet.Store(tick())
 		}()
@@ -105,7 +107,7 @@ func reregOne(c *vf.Ctx, seed int64, batch, iter int, race bool) {
 	prePlan := queryPlan(rng, true, true)
 	nQueries += len(prePlan)
 
-	var attempts, whileExiting, acceptedEarly, accepted atomic.Int64
+	var attempts, whileExiting, acceptedEarly, accepted, runSeenWaiting atomic.Int64
 	for i := range first {
 		old := first[i]
 		rr := rand.New(rand.NewSource(rng.Int63()))
@@ -157,6 +159,18 @@ func reregOne(c *vf.Ctx, seed int64, batch, iter int, race bool) {
 					break
 				}
 				accepted.Add(1)
+				if id := runGID.Load(); id != 0 && runRet.Load() == 0 {
+					// was Run still waiting after this acceptance? (the only sound way to say that Run's
+					// decision to return came after the acceptance: ticks only bound Run's return from above)
+					// "still waiting" = the goroutine is inside the exported Run frame and blocked (parked on a
+					// channel / sync primitive, or sleeping): whatever it waits on, it has not made its way out
+					// of Run yet. A goroutine that merely has not left Run's epilogue is not blocked.
+					if g, ok := gdump.Find(gdump.Snapshot(), id); ok && g.Has("daemon.(*OrderedDaemon).Run") &&
+						(g.Parked() || g.State == "sleep" || g.Has("sync.(*Cond).Wait") || g.Has("sync.(*WaitGroup).Wait")) {
+						nw.runWaiting = true
+						runSeenWaiting.Add(1)
+					}
+				}
 				if sawExitRefusal {
 					acceptedEarly.Add(1)
 				}
@@ -197,6 +211,7 @@ func reregOne(c *vf.Ctx, seed int64, batch, iter int, race bool) {
 	T := shutRet.Load()
 	c.Count("stress_iterations", 1)
 	c.Count("rereg_iterations", 1)
+	c.Count("rereg_run_seen_waiting_after_acceptance", int(runSeenWaiting.Load()))
 	if lastWorker {
 		c.Count("rereg_last_worker_mode", 1)
 	}
@@ -243,7 +258,13 @@ func reregOne(c *vf.Ctx, seed int64, batch, iter int, race bool) {
 			viol("running-name:accepted", fmt.Sprintf("BackgroundWorker(%s) returned nil although the handler registered under that name had not returned when the call returned", w.name))
 		}
 		rt := w.retTick.Load()
-		if rt != 0 && rt < T && (RT == 0 || w.callRet > RT || rt < RT) {
+		// Run: workers registered before Run was called, and workers whose acceptance was followed by a
+		// snapshot with Run still waiting, must have returned before Run did
+		runBad := RT != 0 && (w.kind == "pre" || w.runWaiting) && (rt == 0 || rt > RT)
+		if runBad {
+			viol("wait:run-returned-before-worker", fmt.Sprintf("worker exit vs re-registration: Run returned at tick %d while worker %s (%s, accepted by the call %d..%d, Run seen still waiting afterwards: %v) returned at tick %d", RT, w.name, w.kind, w.callTick, w.callRet, w.runWaiting, rt))
+		}
+		if rt != 0 && rt < T {
 			continue
 		}
 		started := false
@@ -260,10 +281,8 @@ func reregOne(c *vf.Ctx, seed int64, batch, iter int, race bool) {
 			viol("exit-rereg:accepted-not-started", fmt.Sprintf("BackgroundWorker(%s, order %d) returned nil on a running daemon but the handler was never started", w.name, w.order))
 		case !cancelled:
 			viol("exit-rereg:leaked-uncancelled-worker", fmt.Sprintf("BackgroundWorker(%s, order %d, kind %s) was accepted (call started at tick %d, returned at tick %d) while the previous worker of that name was exiting; ShutdownAndWait returned at tick %d, the worker has not returned and its context is not cancelled [lastWorker=%v run=%v runReturned=%d concurrentShutdown=%v names=%d] chain: %s", w.name, w.order, w.kind, w.callTick, w.callRet, T, lastWorker, useRun, RT, concurrentShutdown, nNames, chainOf(all, w.name)))
-		case rt == 0 || rt > T:
-			viol("wait:shutdownandwait-returned-before-worker", fmt.Sprintf("worker exit vs re-registration: ShutdownAndWait returned at tick %d, accepted worker %s returned at tick %d", T, w.name, rt))
 		default:
-			viol("wait:run-returned-before-worker", fmt.Sprintf("worker exit vs re-registration: Run returned at tick %d, worker %s (accepted at tick %d) returned at tick %d", RT, w.name, w.callRet, rt))
+			viol("wait:shutdownandwait-returned-before-worker", fmt.Sprintf("worker exit vs re-registration: ShutdownAndWait returned at tick %d, accepted worker %s returned at tick %d", T, w.name, rt))
 		}
 	}
 	for _, w := range all {
